@@ -97,7 +97,7 @@ def interest_table(ctx, fe):
     names = [A + (7,), AB + (7,), X, (9,), A, ABC]
     k = 0
     for v in (range(5) if fe == 'v2' else range(len(P.V1_VALUES))):
-        for hp in (False, True):
+        for hp in (False, True, 2):
             for sig in (0, 1, 2):
                 for dok in (True, False):
                     if not hp and sig == 0 and not dok:
